@@ -257,6 +257,20 @@ CHECKS = {
                 "directions against octets derived from the worded values with the independent reference codec.",
         "note": "structural validity only; Annex-F hex transcribed from memory is used only where it agrees with the derivation (17 of 17 given)",
     },
+    "C15": {
+        "level": "exploration",
+        "design_ref": "DESIGN.md 3 C15",
+        "technique": "runtime monitor: model dictionary of the device's property store + before/after snapshots + RPM==RP differential, driven by a real client stack against a real device carrying every registered object type",
+        "text": "A device stack carries one instance of each of the 62 registered object types with properties populated "
+                "from their datatypes by the schema generator; a client stack sends random ReadProperty, WriteProperty "
+                "(right- and wrong-typed values, array index classes 0/1..n/n+1/large, priorities, read-only, absent and "
+                "unknown properties, unknown objects) and ReadPropertyMultiple requests (explicit, all/required/optional).  "
+                "Every read is compared with the device's property store, every acknowledged write is read back and must "
+                "have changed only its target, every refused write must leave a full snapshot of all properties unchanged "
+                "and carry an error of a matching family, and every RPM element must equal what a ReadProperty request for "
+                "the same reference returns at that moment.",
+        "note": "values are structurally valid only; an application Null written to a non-commandable property is outside the generated domain",
+    },
 }
 
 NOT_APPLICABLE = {pid: _PENDING for pid in ("C%02d" % i for i in range(1, 21)) if pid not in CHECKS}
